@@ -26,6 +26,11 @@ type Block struct {
 	// leave everything as it was (the leaves are spent for real by later blocks).
 	Bad   []int  `json:"bad,omitempty"`
 	Prune []int  `json:"prune,omitempty"` // slots a partial map forest is asked to Prune right before this block (remembered, live)
+	// Learn: live slots every forest is asked to remember right before this block (after the prunes), the way
+	// LearnHow says: "verify" - Verify(remember=true); "ingest" - MapPollard.Ingest (partial forests; the
+	// others Verify); "vpp" - GetMissingPositions + VerifyPartialProof(remember=true) (partial forests).
+	Learn    []int  `json:"learn,omitempty"`
+	LearnHow string `json:"learnhow,omitempty"`
 	Salt  int    `json:"salt,omitempty"`  // branch id: added leaves hash as LeafHash(Salt*1e6+slot), so that leaves re-added on another branch after an undo differ
 	DM    string `json:"dm,omitempty"`    // deletion mode that produced Del (coverage label)
 	AM    string `json:"am,omitempty"`    // addition mode that produced Add (coverage label)
@@ -472,6 +477,23 @@ func addPrunes(t *rapid.T, blocks []Block) {
 			b.Prune = permute(t, pr, "pruneperm")
 			for _, s := range b.Prune {
 				delete(tracked, s)
+			}
+		}
+		if i > 0 && len(live) > 0 && rapid.IntRange(0, 2).Draw(t, "learn-here") == 0 {
+			var l []int
+			for s := range live {
+				l = append(l, s)
+			}
+			sort.Ints(l)
+			k := rapid.IntRange(1, min(3, len(l))).Draw(t, "nlearn")
+			b.Learn = rapid.Permutation(l).Draw(t, "learnperm")[:k:k]
+			// the newest leaf is alone in its tree whenever the forest is odd-sized: a tracked leaf ON a root
+			if newest := l[len(l)-1]; !inSet(b.Learn, newest) && rapid.Bool().Draw(t, "learn-newest") {
+				b.Learn = append(b.Learn, newest)
+			}
+			b.LearnHow = rapid.SampledFrom([]string{"verify", "ingest", "vpp"}).Draw(t, "learnhow")
+			for _, s := range b.Learn {
+				tracked[s] = true
 			}
 		}
 		for _, d := range b.Del {
